@@ -301,6 +301,16 @@ impl<SP: StorageProvider, PS: PolicyStore> Transaction<SP, PS> {
         ) {
             perspective.revert(checkpoint)?;
             sink.rollback();
+            // A perspective opened just for this command holds nothing else.
+            // Discard it so that its parent stays a tip of the transaction and
+            // an empty perspective is never written out later.
+            let head = perspective.head_address()?;
+            if matches!((head, self.superseded), (Prior::Single(h), Prior::Single(base)) if h.id == base)
+            {
+                self.perspective = None;
+                self.phead = None;
+                self.superseded = Prior::None;
+            }
             return Err(e.into());
         }
         perspective.add_command(command)?;
